@@ -1,4 +1,5 @@
 import StepModel.P21.LexLemmas
+import StepModel.P21.LexNumber
 import StepModel.Generated.P21LexGen
 /-!
 # C09 — Part 21 literals are read to their value and written in conforming form
@@ -779,6 +780,214 @@ example : FloatLaws dblOps 0x3FF8000000000000 where
   shape := ⟨[], [49], [46, 53], none, by rw [fmt_one_and_a_half]; rfl, Or.inl rfl, by decide, by decide,
     Or.inr ⟨[53], rfl, by decide, by decide⟩, trivial⟩
   stable := ⟨⟨false, 15, -1⟩, by rw [fmt_one_and_a_half]; rfl, by rfl⟩
+
+/-! ### NUMBER: full theorems through the scan/parse equivalence of `in >> d` -/
+
+/-- NUMBER, never silent (any configuration in which `ReadNumber` reports a failed extraction and the severity found after
+    `$` is kept): whenever `STEPattribute::STEPread` flags no error, for *any* input bytes, then either
+    (a) the input is blanks, a text `tok` that `strtod` converts completely (`denoteReal tok = some d`: sign, digits, optional
+        `.` digits, optional exponent — the integer and real tokens of the grammar and the reader's lenient forms `.5`, `1e5`),
+        separators, and the stream rests at the end or in front of a delimiter; `d` is inside the double range and the
+        attribute holds exactly `ofDecimal d` (`realValue`: the in-band null reads as unset); or
+    (b) OPTIONAL and `$` (followed by separators only) / a missing value; or (c) blank input.
+    Rests on `numSplit_spec` + `parse_norm`: what libstdc++'s `_M_extract_float` consumes from *any* input, and the normal
+    form it hands to `strtod`, denote the same decimal. -/
+theorem never_silent_number_of_cfg {F} (ops : FloatOps F) (cfg : LexCfg) (hcfg : cfg.numberReportsFail = true)
+    (hcfg2 : cfg.dollarKeepsError = true)
+    (lookup : Int → RefLookup) (nullable : Bool) (input : List Byte) (r : ReadResult F)
+    (h : attrRead ops cfg lookup .number nullable (IStream.ofBytes input) = .ok r) (hne : NoErr r.sev) :
+    (∃ sp1 tok sp2 d v, input = sp1 ++ tok ++ sp2 ++ r.s.right ∧ sp1.all isSpace = true ∧ Between cfg sp2 ∧
+        denoteReal tok = some d ∧ ops.ofDecimal d = some v ∧
+        r.val = realValue ops (some v) ∧ AtDelimOrEnd r.s.right) ∨
+    (nullable = true ∧ r.val = .unset ∧ ∃ sp1 c t, input = sp1 ++ c :: t ∧ sp1.all isSpace = true ∧
+        ((c = 36 ∧ ∃ sp2, t = sp2 ++ r.s.right ∧ Between cfg sp2 ∧ AtDelimOrEnd r.s.right) ∨
+         ((c = 44 ∨ c = 41) ∧ r.s.right = c :: t))) ∨
+    (input.all isSpace = true ∧ r.val = .unset) := by
+  obtain ⟨sp1, body, h1, h2, h3, h4⟩ := dropSpaces_split [] input
+  rcases h4 with rfl | ⟨c, t, rfl, hc⟩
+  · right; right
+    simp at h1; subst h1
+    have hws : (IStream.ofBytes input).ws = { left := input.reverse, right := [], eof := true } := by
+      simpa [IStream.ofBytes] using ws_blank [] input true h2
+    simp only [attrRead, hws] at h
+    simp [IStream.peekC, IStream.peek, IStream.sentry, IStream.good, readNumber, IStream.ws, IStream.extractFloatText,
+      checkRemainingInput, realValue, IStream.failed, Sev.warnIf] at h
+    subst h
+    exact ⟨h2, rfl⟩
+  · subst h1
+    by_cases h36 : c = 36
+    · subst h36
+      rw [attrRead_dollar ops cfg lookup .number nullable sp1 t h2] at h
+      simp only [Outcome.ok.injEq] at h
+      have hch := cri_char cfg { left := 36 :: sp1.reverse, right := t } Sev.null rfl
+      subst h
+      cases nullable with
+      | false => simp [NoErr] at hne
+      | true =>
+        simp only [hcfg2, if_true] at hne ⊢
+        right; left
+        have := hch.2 hne
+        simp at this
+        obtain ⟨sp2, hs2, ht, _, hat⟩ := this
+        exact ⟨by simp, by simp, sp1, 36, t, rfl, h2, Or.inl ⟨rfl, sp2, ht, hs2, hat⟩⟩
+    · by_cases hdl : c = 44 ∨ c = 41
+      · rw [attrRead_missing ops cfg lookup .number nullable sp1 t c h2 hdl] at h
+        simp only [Outcome.ok.injEq] at h
+        subst h
+        cases nullable with
+        | false => simp [NoErr] at hne
+        | true => right; left; exact ⟨rfl, rfl, sp1, c, t, rfl, h2, Or.inr ⟨hdl, rfl⟩⟩
+      · have hcond : (c == 36 || c == 44 || c == 41) = false := by
+          simp at hdl ⊢; exact ⟨⟨h36, hdl.1⟩, hdl.2⟩
+        have hpre : (IStream.ofBytes (sp1 ++ c :: t)).ws = { left := sp1.reverse, right := c :: t } := by
+          simpa [IStream.ofBytes] using ws_good [] sp1 c t true h2 hc
+        simp only [attrRead, hpre, peekC_good, hcond, readNumber, ws_good0 _ _ _ _ hc, extractFloatText_good _ _ _ hc] at h
+        simp only [Bool.false_eq_true, if_false, Outcome.ok.injEq] at h
+        obtain ⟨hwf, happ, hscan⟩ := numSplit_spec sp1.reverse (c :: t)
+        generalize hns : numSplit (c :: t) = ns at hwf happ hscan
+        obtain ⟨f, rest⟩ := ns
+        simp only at hwf happ hscan
+        rw [hscan] at h
+        simp only at h
+        cases hconv : ops.conv f.norm.text with
+        | ok v =>
+          left
+          simp only [hconv] at h
+          subst h
+          simp only [IStream.failed, Bool.or_self, Bool.false_and, Sev.warnIf, Bool.false_eq_true, if_false] at hne ⊢
+          have hof : ∃ d, parseFloatText f.text = some d ∧ ops.ofDecimal d = some v := by
+            unfold FloatOps.conv at hconv
+            rw [parse_norm f hwf] at hconv
+            cases hp : parseFloatText f.text with
+            | none => rw [hp] at hconv; cases hconv
+            | some d =>
+              rw [hp] at hconv; simp only at hconv
+              cases ho : ops.ofDecimal d with
+              | none => rw [ho] at hconv; cases hconv
+              | some v' => rw [ho] at hconv; simp at hconv; exact ⟨d, rfl, by rw [ho, hconv]⟩
+          obtain ⟨d, hd1, hd2⟩ := hof
+          have hch := (cri_char cfg { left := f.text.reverse ++ sp1.reverse, right := rest, eof := rest.isEmpty } Sev.null rfl).2 hne
+          generalize checkRemainingInput cfg (some attrDelims)
+            { left := f.text.reverse ++ sp1.reverse, right := rest, eof := rest.isEmpty } Sev.null = X at hne hch ⊢
+          rcases hch with ⟨heof, hsame⟩ | ⟨heof, sp2, hsp2, hrr, _, hat⟩
+          · simp only at heof
+            have hre : rest = [] := by simpa using heof
+            subst hre
+            refine ⟨sp1, f.text, [], d, v, ?_, h2, Between.nil cfg, hd1, hd2, rfl, ?_⟩
+            · rw [hsame]; simp [happ]
+            · rw [hsame]; exact Or.inl rfl
+          · simp only at hrr
+            refine ⟨sp1, f.text, sp2, d, v, ?_, h2, hsp2, hd1, hd2, rfl, hat⟩
+            rw [happ, hrr]; simp
+        | invalid =>
+          exfalso
+          simp only [hconv, IStream.setFail, IStream.failed, Bool.or_true, Bool.true_or, hcfg, Bool.not_false, Bool.and_self] at h
+          subst h
+          rcases cri_mono cfg _ _ with hm | hm
+          · rw [hm] at hne; exact warnIf_true_err Sev.null hne
+          · exact hm hne
+        | overflow =>
+          exfalso
+          simp only [hconv, IStream.setFail, IStream.failed, Bool.or_true, Bool.true_or, hcfg, Bool.not_false, Bool.and_self] at h
+          subst h
+          rcases cri_mono cfg _ _ with hm | hm
+          · rw [hm] at hne; exact warnIf_true_err Sev.null hne
+          · exact hm hne
+
+
+/-- NUMBER, never silent, for the scanners as the source has them now. -/
+theorem C09_never_silent_number {F} (ops : FloatOps F) (lookup : Int → RefLookup) (nullable : Bool) (input : List Byte)
+    (r : ReadResult F)
+    (h : attrRead ops Generated.lexCfg lookup .number nullable (IStream.ofBytes input) = .ok r) (hne : NoErr r.sev) :
+    (∃ sp1 tok sp2 d v, input = sp1 ++ tok ++ sp2 ++ r.s.right ∧ sp1.all isSpace = true ∧ Between Generated.lexCfg sp2 ∧
+        denoteReal tok = some d ∧ ops.ofDecimal d = some v ∧
+        r.val = realValue ops (some v) ∧ AtDelimOrEnd r.s.right) ∨
+    (nullable = true ∧ r.val = .unset ∧ ∃ sp1 c t, input = sp1 ++ c :: t ∧ sp1.all isSpace = true ∧
+        ((c = 36 ∧ ∃ sp2, t = sp2 ++ r.s.right ∧ Between Generated.lexCfg sp2 ∧ AtDelimOrEnd r.s.right) ∨
+         ((c = 44 ∨ c = 41) ∧ r.s.right = c :: t))) ∨
+    (input.all isSpace = true ∧ r.val = .unset) :=
+  never_silent_number_of_cfg ops Generated.lexCfg (by decide) (by decide) lookup nullable input r h hne
+
+/-- NUMBER, accept (any configuration): every token of the `integer` or of the `real` grammar whose denotation converts to a
+    double other than the in-band null, followed by blanks and a delimiter, is read to exactly that double with no error,
+    and the stream stops at the delimiter -/
+theorem C09_accept_number {F} (ops : FloatOps F) (cfg : LexCfg) (lookup : Int → RefLookup) (nullable : Bool)
+    (tok sp rest : List Byte) (d : Byte) (dec : Decimal) (v : F)
+    (htok : isReal tok = true ∨ isInteger tok = true) (hden : denoteReal tok = some dec) (hv : ops.ofDecimal dec = some v)
+    (hnn : ops.isRealNull v = false) (hsp : sp.all isSpace = true) (hd : d = 44 ∨ d = 41) :
+    attrRead ops cfg lookup .number nullable (IStream.ofBytes (tok ++ sp ++ d :: rest)) =
+      .ok ⟨.null, .real v, { left := sp.reverse ++ tok.reverse, right := d :: rest }⟩ := by
+  have hdd : isDelim attrDelims d = true := by rcases hd with rfl | rfl <;> decide
+  have hdn : isSpace d = false := by rcases hd with rfl | rfl <;> decide
+  have hcont : NumCont (sp ++ d :: rest) := by
+    cases sp with
+    | nil => exact Or.inr ⟨d, rest, rfl, by rcases hd with rfl | rfl <;> decide, by rcases hd with rfl | rfl <;> decide,
+        by rcases hd with rfl | rfl <;> decide, by rcases hd with rfl | rfl <;> decide⟩
+    | cons a sp' =>
+      have ha : isSpace a = true := by simp at hsp; exact hsp.1
+      refine Or.inr ⟨a, sp' ++ d :: rest, rfl, space_not_digit ha, ?_, ?_, ?_⟩ <;> (simp [isSpace] at ha; bomega)
+  -- the split of the input
+  obtain ⟨f, hf1, hf2⟩ : ∃ f, numSplit (tok ++ (sp ++ d :: rest)) = (f, sp ++ d :: rest) ∧ f.text = tok := by
+    rcases htok with hr | hi
+    · obtain ⟨sg, ip, fp, ex, rfl, hsg, hip1, hip, hfp, hex⟩ := isReal_shape tok hr
+      exact numSplit_realText sg ip fp ex _ hsg hip1 hip hfp hex hcont.real
+    · obtain ⟨sg, ds, rfl, hsg, hds1, hds⟩ := isInteger_form tok hi
+      have := numSplit_intText sg ds _ hsg hds1 hds hcont
+      simpa using this
+  -- the first character
+  obtain ⟨c, u, hcu, hcs, hc36, hc44, hc41⟩ : ∃ c u, tok = c :: u ∧ isSpace c = false ∧ c ≠ 36 ∧ c ≠ 44 ∧ c ≠ 41 := by
+    have key : ∀ (sg ds : List Byte), IsSign sg → ds ≠ [] → ds.all isDigit = true → ∀ tail,
+        ∃ c u, sg ++ (ds ++ tail) = c :: u ∧ isSpace c = false ∧ c ≠ 36 ∧ c ≠ 44 ∧ c ≠ 41 := by
+      intro sg ds hsg hds1 hds tail
+      obtain ⟨i0, iu, rfl⟩ : ∃ i0 iu, ds = i0 :: iu := by
+        cases ds with
+        | nil => exact absurd rfl hds1
+        | cons i0 iu => exact ⟨i0, iu, rfl⟩
+      have hi0 : isDigit i0 = true := by simp at hds; exact hds.1
+      have hi0' : isSpace i0 = false ∧ i0 ≠ 36 ∧ i0 ≠ 44 ∧ i0 ≠ 41 := by
+        refine ⟨digit_not_space hi0, ?_, ?_, ?_⟩ <;> (simp [isDigit] at hi0; bomega)
+      rcases hsg with rfl | rfl | rfl
+      · exact ⟨i0, iu ++ tail, by simp, hi0'.1, hi0'.2.1, hi0'.2.2.1, hi0'.2.2.2⟩
+      · exact ⟨43, i0 :: (iu ++ tail), by simp, by decide, by decide, by decide, by decide⟩
+      · exact ⟨45, i0 :: (iu ++ tail), by simp, by decide, by decide, by decide, by decide⟩
+    rcases htok with hr | hi
+    · obtain ⟨sg, ip, fp, ex, rfl, hsg, hip1, hip, _, _⟩ := isReal_shape tok hr
+      exact key sg ip hsg hip1 hip _
+    · obtain ⟨sg, ds, rfl, hsg, hds1, hds⟩ := isInteger_form tok hi
+      simpa using key sg ds hsg hds1 hds []
+  obtain ⟨hwf, _, hscan⟩ := numSplit_spec [] (tok ++ (sp ++ d :: rest))
+  rw [hf1] at hwf hscan
+  simp only [hf2] at hscan
+  have hconv : ops.conv f.norm.text = .ok v := by
+    unfold FloatOps.conv
+    rw [parse_norm f hwf, hf2]
+    unfold denoteReal at hden
+    rw [hden]; simp only; rw [hv]
+  have hpre : (IStream.ofBytes (tok ++ sp ++ d :: rest)).ws = { left := [], right := tok ++ (sp ++ d :: rest) } := by
+    rw [hcu]
+    simpa [IStream.ofBytes] using ws_good0 [] c (u ++ (sp ++ d :: rest)) true hcs
+  have hcond : (c == 36 || c == 44 || c == 41) = false := by simp [hc36, hc44, hc41]
+  have hrne : (sp ++ d :: rest).isEmpty = false := by cases sp <;> rfl
+  have hcri := cri_delim cfg tok.reverse sp rest d false true Sev.null hsp hdd hdn
+  simp only [attrRead, hpre]
+  rw [hcu] at hscan hcri ⊢
+  simp only [List.cons_append, peekC_good, hcond, Bool.false_eq_true, if_false, readNumber, ws_good0 _ _ _ _ hcs,
+    extractFloatText_good _ _ _ hcs]
+  simp only [List.cons_append] at hscan
+  simp only [hscan, hconv, IStream.failed, Bool.or_self, Bool.false_and, Sev.warnIf, Bool.false_eq_true, if_false, hrne,
+    List.append_nil, hcri, realValue, hnn]
+
+/-- NUMBER, writer (under `FloatLaws`): what `WriteReal` writes for a NUMBER attribute reads back as a NUMBER -/
+theorem C09_write_read_number {F} (ops : FloatOps F) (cfg : LexCfg) (lookup : Int → RefLookup) (nullable : Bool) (v : F)
+    (laws : FloatLaws ops v) (hnn : ops.isRealNull v = false)
+    (sp rest : List Byte) (d : Byte) (hsp : sp.all isSpace = true) (hd : d = 44 ∨ d = 41) :
+    attrRead ops cfg lookup .number nullable (IStream.ofBytes (attrWrite ops .number (.real v) ++ sp ++ d :: rest)) =
+      .ok ⟨.null, .real v, { left := sp.reverse ++ (attrWrite ops .number (.real v)).reverse, right := d :: rest }⟩ := by
+  obtain ⟨hreal, hden⟩ := C09_write_real_conforming ops v laws.shape
+  obtain ⟨dec, hp, hv⟩ := laws.stable
+  have hw : attrWrite ops .number (.real v) = attrWrite ops .real (.real v) := rfl
+  rw [hw]
+  exact C09_accept_number ops cfg lookup nullable _ sp rest d dec v (Or.inl hreal) (by rw [hden, hp]) hv hnn hsp hd
 
 /-! ## entity reference -/
 
